@@ -20,7 +20,8 @@ TRUSTED = [
     "re-proved here (Mathlib has no Edwards model); commutativity, neutral element, inverse and closure under the complete law are proved",
 ]
 ASSUMPTIONS = [
-    "points presented to the scalar multiplications lie in the prime-order subgroup (or are the neutral element); operands of add / dbl / neg / "
+    "points presented to the scalar multiplications lie in the prime-order subgroup (or are the neutral element): the routines reduce the "
+    "scalar modulo r, which is only right there; operands of add / dbl / neg / "
     "cmp / encodings range over the whole curve including the 8-torsion and sums of torsion and subgroup points",
     "in the extended-coordinate build every input satisfies T*Z = X*Y (the harness constructs T that way), which is the invariant every "
     "public function of that build maintains (checked on every output: flag T-BAD)",
@@ -406,21 +407,28 @@ def gen_map(rng, count):
 
 
 def witnesses(cv, cfg):
-    """one deterministic line per known finding of known_findings.json, so that every run shows each of them (or reports it stale)"""
+    """regression lines: the repro line of every repaired defect (known_findings.json `fixed:` C17 entries)"""
     G, G2 = cv.g, cv.mul(cv.g, 2)
     g, g2 = "%x,%x" % G, "%x,%x" % G2
     y = 2
     while cv.lift(y) is not None:
         y += 1
     out = ["edm lwnaf 0 %s %x" % (g, (1 << 255) + 1),            # C17-F1
+           "edm slide 0 %s %x" % (g, (1 << 256) + 1),
+           "eds inter %s %x %s 3" % (g, (1 << 255) + 1, g2),
+           "eds trick %s 5 %s %x" % (g, g2, (1 << 256) + 1),
+           "eds joint %s 5 %s %x" % (g, g2, (1 << 255) + 1),
            "edm fix_combs 0 %s %x" % (g, (1 << 255) + 1),        # C17-F2
-           "edm fix_basic 0 %s %x" % (g, (1 << 253) + 1),        # C17-F2
+           "edm fix_combd 0 %s %x" % (g, (1 << 255) + 1),
+           "edm fix_basic 0 %s %x" % (g, (1 << 253) + 1),
+           "edm fix_lwnaf 0 %s %x" % (g, (1 << 255) + 1),
+           "edm lwreg 0 %s %x" % (g, (1 << 383) + 1),            # C17-F2 / C17-F5 (faulted)
+           "edm lwreg 0 %s -%x" % (g, (1 << 383) + 2),
+           "edm lwreg 0 %s 6" % g,                               # C17-F3 (T coordinate), C17-F4 (array overrun under the sanitizer)
+           "ed2 sub_extnd 0 %s %s" % (g, g2),                    # C17-F6
+           "ed2 sub_extnd 3 %s %s" % (g, g2),
            "ed1 neg_basic 0 %s" % g,                             # C17-F7
            "ed_upk %x 0" % y]                                    # C17-F8
-    if SYS[cfg] == "extnd":
-        out.append("edm lwreg 0 %s 6" % g)                       # C17-F3 (and C17-F4 under the sanitizer)
-    else:
-        out.append("ed2 sub_extnd 0 %s %s" % (g, g2))            # C17-F6
     return out
 
 
@@ -454,32 +462,12 @@ def streams(ctx, scale=1):
         if "p" in kv:
             cv = CVS[cfg] = Ed(kv)
             if cfg == SAN:
-                # the same generators under AddressSanitizer / UBSan, shorter; lines that are known to fault (C17-F4, C17-F5) are kept out
-                # of the stream except one witness each at the end (every fault costs an oracle restart)
-                body = (gen_group(ctx.rng, cv, SYS[cfg], ng // 4) + gen_mul(ctx.rng, cv, SYS[cfg], nm // 2, (0, 4) if quick else None)
-                        + gen_enc(ctx.rng, cv, SYS[cfg], ne // 3) + gen_map(ctx.rng, 3))
-                keep = []
-                for l in body:
-                    rt = routines(cfg, l.split())
-                    if any(v == "lwreg" or _bits(k) > LIM.get(v, INF) for v, k in rt):
-                        continue
-                    keep.append(l)
-                lines += keep + witnesses(cv, cfg)
+                # the same generators under AddressSanitizer / UBSan, shorter
+                lines += (gen_group(ctx.rng, cv, SYS[cfg], ng // 4) + gen_mul(ctx.rng, cv, SYS[cfg], nm // 2, (0, 4) if quick else None)
+                          + gen_enc(ctx.rng, cv, SYS[cfg], ne // 3) + gen_map(ctx.rng, 3) + witnesses(cv, cfg))
             else:
-                ml = gen_mul(ctx.rng, cv, SYS[cfg], nm, part(CONFIGS.index(cfg)))
-                # ed_mul_lwreg with a scalar of more than 256 bits overruns a stack buffer (C17-F2/F5) and may kill the oracle: every fault
-                # costs a restart and the run gives up after 8, so only the first two such lines of a stream keep their scalar
-                seen = 0
-                for i, l in enumerate(ml):
-                    t = l.split()
-                    if any(v == "lwreg" and _bits(k) > 256 for v, k in routines(cfg, t)):
-                        seen += 1
-                        if seen > 2:
-                            for j in (3, 4, 5):
-                                if j < len(t) and "," not in t[j] and _bits(t[j]) > 256:
-                                    t[j] = hx(int(t[j], 16) % (1 << 250))
-                            ml[i] = " ".join(t)
-                lines += gen_group(ctx.rng, cv, SYS[cfg], ng) + ml + gen_enc(ctx.rng, cv, SYS[cfg], ne)
+                lines += (gen_group(ctx.rng, cv, SYS[cfg], ng) + gen_mul(ctx.rng, cv, SYS[cfg], nm, part(CONFIGS.index(cfg)))
+                          + gen_enc(ctx.rng, cv, SYS[cfg], ne))
                 lines += gen_map(ctx.rng, nh) + witnesses(cv, cfg)
         res.append({"name": "ed-" + cfg, "cfg": cfg, "exe": exe, "lines": lines})
     return res
@@ -498,87 +486,8 @@ def nontrivial(r):
     return not r["got"].startswith("err") and not r["got"].startswith("0,1")
 
 
-# ---- known findings -------------------------------------------------------------------------------------------------
-INF = 10 ** 9
-# longest scalar (bits) each routine handles: the ed_mul_* family never reduces the scalar modulo the group order (the ep_* routines
-# it was cloned from do), so the fixed-size recoding buffers / precomputed tables bound the scalar
-LIM = {"basic": INF, "monty": INF, "lwnaf": 255, "slide": 256, "lwreg": 256, "fix_basic": 253, "fix_combs": 255, "fix_combd": 255,
-       "fix_lwnaf": 255, "trick": 256, "inter": 255, "joint": 255, "dig": INF}
-# ED_METHD of each configuration (tools/relicbuild.py): what the macros ed_mul / ed_mul_fix / ed_mul_sim expand to
-METHD = {"p255": ("lwnaf", "fix_combs", "inter"), "p255-extnd": ("slide", "fix_lwnaf", "inter"), "p255-basic": ("monty", "fix_combd", "joint"),
-         "p255-extnd-san": ("basic", "fix_basic", "trick")}
-
-
-def _bits(tok):
-    return abs(int(tok, 16)).bit_length()
-
-
-def _is_O(tok):
-    f = tok.split(",")
-    return int(f[0], 16) == 0 and int(f[1], 16) == 1
-
-
-def routines(cfg, t):
-    """[(routine, scalar token)] the line reaches, following the early exits of the C code"""
-    mul, fix, sim = METHD[cfg]
-    if t[0] == "edm":
-        v, k = t[1], t[4]
-        v = {"mul": mul, "gen": fix, "fix_": fix}.get(v, v)
-        return [(v, k)]
-    if t[0] == "eds":
-        v, P, k, Q, m = t[1], t[2], t[3], t[4], t[5]
-        if v == "basic":
-            return [(mul, k), (mul, m)]
-        if v == "gen":
-            if int(k, 16) == 0:
-                return [(mul, m)]
-            if int(m, 16) == 0 or _is_O(Q):
-                return [(fix, k)]
-            if sim == "inter" and fix == "fix_lwnaf":
-                return [("inter", k), ("inter", m)]
-            v = sim
-            P = "1,0"        # the first base is the generator, whatever the (ignored) token says: never the neutral element
-        if v == "sim":
-            v = sim
-        if v in ("trick", "inter", "joint"):
-            if int(k, 16) == 0 or _is_O(P):
-                return [(mul, m)]
-            if int(m, 16) == 0 or _is_O(Q):
-                return [(mul, k)]
-            return [(v, k), (v, m)]
-    return []
-
-
-def _spec_of(r):
-    v = r.get("verdict", "")
-    return v.split("spec=[")[1].split("]")[0] if "spec=[" in v else None
-
-
+# ---- known findings --------------------------------------------------------------------------------------------------
+# none listed: the eight defects found while building this check (C17-F1..F8, findings/C17-1.md) are repaired in /repo (known_findings.json
+# `fixed:` lines); their repro lines stay in every stream (`witnesses`)
 def matches_finding(f, r):
-    t = r["line"].split()
-    pred, got, cfg = f.get("pred"), r["got"], r["cfg"]
-    if cfg not in METHD:
-        return False
-    if pred in ("long_scalar_rejected", "long_scalar_wrong"):
-        over = [1 for v, k in routines(cfg, t) if _bits(k) > LIM.get(v, INF)]
-        if not over:
-            return False
-        if got.startswith("CRASH"):
-            return False                      # -> long_scalar_memory
-        return (got == "err") == (pred == "long_scalar_rejected")
-    if pred == "lwreg_extnd_t":
-        # ed_mul_reg_imp: `#if ED_Afp == EXTND` never holds, the T coordinate of the parity correction is not copied
-        return (SYS[cfg] == "extnd" and any(v == "lwreg" and int(k, 16) % 2 == 0 for v, k in routines(cfg, t))
-                and _spec_of(r) is not None and got == _spec_of(r) + " T-BAD")
-    if pred == "lwreg_reg_overflow":
-        return cfg.endswith("-san") and got.startswith("CRASH") and any(v == "lwreg" for v, _ in routines(cfg, t))
-    if pred == "long_scalar_memory":
-        return got.startswith("CRASH") and any(_bits(k) > LIM.get(v, INF) for v, k in routines(cfg, t))
-    if pred == "sub_extnd_other_builds":
-        return t[0] == "ed2" and t[1] == "sub_extnd" and SYS[cfg] != "extnd"
-    if pred == "neg_basic_z":
-        return (t[0] == "ed1" and (t[1] == "neg_basic" or (t[1] == "neg" and SYS[cfg] == "basic")) and t[2] == "0"
-                and _spec_of(r) is not None and got == _spec_of(r) + " BASIC-WITH-Z!=1")
-    if pred == "upk_status":
-        return t[0] == "ed_upk" and got.startswith("r=1 ") and got.endswith(" on=0")
     return False
